@@ -211,11 +211,27 @@ def emit_vsop_module(planet, tables, exps):
         o.append('/-- per-series sums of |A*C| (scaled by 10^(expA+expC)) -/')
         o.append('theorem %s_sumAbsAC : %s.map sumAbsAC = [%s] := by decide +kernel' % (key, key, ', '.join(map(str, sums_ac))))
         o.append('theorem %s_lengths : %s.map List.length = [%s] := by decide +kernel' % (key, key, ', '.join(str(len(s)) for s in series)))
+        if series and series[0]:
+            a, b, c = series[0][0]
+            o.append('/-- the first term of series 0 (for R: the mean distance, for L: the mean longitude at J2000.0) -/')
+            o.append('theorem %s_lead0 : (%s.getD 0 []).head? = some (%s, %s, %s) := by decide +kernel' % (
+                key, key, lean_int(scaled(a, ea)), lean_int(scaled(b, eb)), lean_int(scaled(c, ec))))
         if len(series) > 1 and series[1]:
             a, b, c = series[1][0]
             o.append('/-- the leading term of series 1 (for L: the mean motion, A*t with B = C = 0) -/')
             o.append('theorem %s_lead1 : (%s.getD 1 []).head? = some (%s, %s, %s) := by decide +kernel' % (
                 key, key, lean_int(scaled(a, ea)), lean_int(scaled(b, eb)), lean_int(scaled(c, ec))))
+        if len(series) > 2 and series[2]:
+            a, b, c = series[2][0]
+            o.append('/-- the first term of series 2 (for most L tables: the secular acceleration, A*t^2 with B = C = 0) -/')
+            o.append('theorem %s_lead2 : (%s.getD 2 []).head? = some (%s, %s, %s) := by decide +kernel' % (
+                key, key, lean_int(scaled(a, ea)), lean_int(scaled(b, eb)), lean_int(scaled(c, ec))))
+        if series and len(series[0]) > 2:
+            o.append('/-- the second and third term of series 0 -/')
+            o.append('theorem %s_s0_t1 : (%s.getD 0 []).getD 1 (0, 0, 0) = (%s, %s, %s) := by decide +kernel' % (
+                (key, key) + tuple(lean_int(scaled(v, e)) for v, e in zip(series[0][1], (ea, eb, ec)))))
+            o.append('theorem %s_s0_t2 : (%s.getD 0 []).getD 2 (0, 0, 0) = (%s, %s, %s) := by decide +kernel' % (
+                (key, key) + tuple(lean_int(scaled(v, e)) for v, e in zip(series[0][2], (ea, eb, ec)))))
         o.append('')
     o.append('end Pymeeus.Tables.%s' % planet)
     return '\n'.join(o) + '\n'
